@@ -460,9 +460,19 @@ def check_rescale(s, rule="C13.5"):
         got = applied(func, ("param", "$r"))
         want = nzu.canon(s.ref(bu, "jnp.clip(r, min, max)", {"r": ("param", "$r"), "min": ("param", "min"), "max": ("param", "max")}))
         # the bounds may be the arguments or the like-named attributes they were just stored in
-        want2 = nzu.canon(s.ref(bu, "jnp.clip(r, self.min, self.max)", {"r": ("param", "$r"), "self": ("param", "self")}))
-        s.ob(rule, "ClipReward.__init__", got is not None and got in (want, want2), "ClipReward.func == clip(·, min, max)", s.loc("ClipReward", "__init__"), key="clip-reward",
-             detail=show(func or NONE, maxlen=160))
+        # the bounds may be read back from the attributes they were just stored in: those are then read through to what the constructor put
+        # there, which has to be the arguments themselves (`min or -inf` would turn a configured bound of 0 into "no bound")
+        got2 = None
+        if func is not None:
+            try:
+                from ..vgraph import replace_nodes
+                raw = apply_fn(bu, func, (("param", "$r"),))
+                got2 = nzu.canon(replace_nodes(raw, {("attr", ("param", "self"), k_): v_ for k_, v_ in pp.self_attrs.items() if k_ in ("min", "max")}))
+            except AnalysisError:
+                got2 = None
+        s.ob(rule, "ClipReward.__init__", got is not None and (got == want or got2 == want), "ClipReward.func == clip(·, min, max) with the constructor's own min / max", s.loc("ClipReward", "__init__"),
+             key="clip-reward", detail=show(func or NONE, maxlen=160) + "; " + "; ".join(f"self.{k_} = {show(v_, maxlen=80)}" for k_, v_ in pp.self_attrs.items() if k_ in ("min", "max")),
+             necessary_for="the reward reported on a wrapper stack is the inner reward clipped to the configured bounds")
 
 
 def check_constructors(s, rule="C13.5"):
